@@ -165,7 +165,7 @@ func c07Run(tier string) *c07Out {
 	keys := c07Keys(4)
 	addr := func(i int) string { return crypto.PubkeyToAddress(keys[i].PublicKey).Hex() }
 	gids := [][]byte{{}, []byte("g"), bytes.Repeat([]byte("a"), 16), bytes.Repeat([]byte("b"), 31), bytes.Repeat([]byte("c"), 32)}
-	nonces := []uint64{0, 1, 1 << 32, 1<<63 - 1}
+	nonces := []uint64{0, 1, 1 << 32, 1<<63 - 1, 1 << 63, 1<<64 - 1}
 	powers := []uint64{0, 1, 1<<32 - 1}
 	max := new(big.Int).Sub(new(big.Int).Lsh(big.NewInt(1), 256), big.NewInt(1))
 	amts := []*big.Int{big.NewInt(0), big.NewInt(1), new(big.Int).Lsh(big.NewInt(1), 255), max}
@@ -191,6 +191,11 @@ func c07Run(tier string) *c07Out {
 			}
 			memberLists = append(memberLists, l)
 		}
+	}
+	// powers at and above 2^63 (the contract's uint256 knows no sign)
+	for _, pw := range []uint64{1<<63 - 1, 1 << 63, 1<<64 - 1} {
+		memberLists = append(memberLists, []*mhubtypes.ExternalSigner{{Power: pw, ExternalAddress: addr(0)}},
+			[]*mhubtypes.ExternalSigner{{Power: 1, ExternalAddress: addr(0)}, {Power: pw, ExternalAddress: addr(1)}})
 	}
 	for _, gid := range gids {
 		for _, n := range nonces {
@@ -237,7 +242,7 @@ func c07Run(tier string) *c07Out {
 			for _, sc := range scopes {
 				for nt := 0; nt <= 2; nt++ {
 					for nf := 0; nf <= 2; nf++ {
-						for _, n := range []uint64{0, 1, 1<<63 - 1} {
+						for _, n := range []uint64{0, 1, 1<<63 - 1, 1 << 63, 1<<64 - 1} {
 							var toks, fees []mhubtypes.ExternalToken
 							for i := 0; i < nt; i++ {
 								toks = append(toks, mhubtypes.ExternalToken{Amount: sdk.NewIntFromBigInt(amts[(i+1)%4]), ExternalTokenId: addr(i)})
@@ -365,35 +370,41 @@ func c07EVM(out *c07Out, keys []*ecdsa.PrivateKey, gids [][]byte, tier string) {
 				if ni == si {
 					continue
 				}
-				naddrs, npws, nmembers := mk(nxt)
-				tx := &mhubtypes.SignerSetTx{Nonce: 5, Signers: nmembers}
-				digest := ckpt(out, "SignerSetTx.GetCheckpoint", func() []byte { return tx.GetCheckpoint(gid) })
-				call := func(h *evmhost.Host, dig []byte, tamper func(int, []byte) []byte, nonce uint64) error {
-					v, r, s := signAll(cur, dig, tamper)
-					_, err := h.Call("updateValset", naddrs, npws, new(big.Int).SetUint64(nonce), addrs, pws, big.NewInt(0), v, r, s)
-					return err
-				}
-				out.evals += 4
-				out.evm["updateValset"]++
-				if err := call(h0.Copy(), digest, nil, 5); err != nil {
-					out.bad("contract_rejects_hub_digest", "SignerSetTx.GetCheckpoint vs Hub2.updateValset", "gid %q set %d->%d: %v", gid, si, ni, err)
-				}
-				if err := call(h0.Copy(), flip(digest), nil, 5); err == nil {
-					out.bad("contract_accepts_other_digest", "Hub2.updateValset", "gid %q set %d->%d accepted signatures over a different digest", gid, si, ni)
-				}
-				if err := call(h0.Copy(), digest, nil, 6); err == nil {
-					out.bad("contract_accepts_other_data", "Hub2.updateValset", "gid %q set %d->%d accepted nonce 6 with signatures over nonce 5", gid, si, ni)
-				}
-				wrongKey := func(i int, sig []byte) []byte {
-					s2, _ := mhubtypes.NewEthereumSignature(digest, hub.EthKey("intruder"))
-					return s2
-				}
-				if err := call(h0.Copy(), digest, wrongKey, 5); err == nil {
-					out.bad("contract_accepts_other_signer", "Hub2.updateValset", "gid %q set %d->%d accepted signatures by a foreign key", gid, si, ni)
+				for _, vn := range []uint64{5, 1 << 63} { // the contract's nonce is a uint256: 2^63 is an ordinary value
+					naddrs, npws, nmembers := mk(nxt)
+					tx := &mhubtypes.SignerSetTx{Nonce: vn, Signers: nmembers}
+					digest := ckpt(out, "SignerSetTx.GetCheckpoint", func() []byte { return tx.GetCheckpoint(gid) })
+					call := func(h *evmhost.Host, dig []byte, tamper func(int, []byte) []byte, nonce uint64) error {
+						v, r, s := signAll(cur, dig, tamper)
+						_, err := h.Call("updateValset", naddrs, npws, new(big.Int).SetUint64(nonce), addrs, pws, big.NewInt(0), v, r, s)
+						return err
+					}
+					out.evals += 4
+					out.evm["updateValset"]++
+					if err := call(h0.Copy(), digest, nil, vn); err != nil {
+						out.bad("contract_rejects_hub_digest", "SignerSetTx.GetCheckpoint vs Hub2.updateValset", "gid %q set %d->%d nonce %d: %v", gid, si, ni, vn, err)
+					}
+					if err := call(h0.Copy(), flip(digest), nil, vn); err == nil {
+						out.bad("contract_accepts_other_digest", "Hub2.updateValset", "gid %q set %d->%d accepted signatures over a different digest", gid, si, ni)
+					}
+					if err := call(h0.Copy(), digest, nil, vn+1); err == nil {
+						out.bad("contract_accepts_other_data", "Hub2.updateValset", "gid %q set %d->%d accepted the next nonce with signatures over this one", gid, si, ni)
+					}
+					wrongKey := func(i int, sig []byte) []byte {
+						s2, _ := mhubtypes.NewEthereumSignature(digest, hub.EthKey("intruder"))
+						return s2
+					}
+					if err := call(h0.Copy(), digest, wrongKey, vn); err == nil {
+						out.bad("contract_accepts_other_signer", "Hub2.updateValset", "gid %q set %d->%d accepted signatures by a foreign key", gid, si, ni)
+					}
 				}
 			}
 			// --- batches of 0..3 transfers
-			for _, sz := range []int{0, 1, 3} {
+			for bi, sz := range []int{0, 1, 3, 1} {
+				bn, bto := uint64(3), uint64(1000)
+				if bi == 3 {
+					bn, bto = 1<<63, 1<<63+5 // nonce and timeout above the int64 range
+				}
 				var txs []*mhubtypes.SendToExternal
 				var am, fe []*big.Int
 				var de []common.Address
@@ -402,18 +413,18 @@ func c07EVM(out *c07Out, keys []*ecdsa.PrivateKey, gids [][]byte, tier string) {
 					txs = append(txs, &mhubtypes.SendToExternal{ExternalRecipient: d.Hex(), Token: mhubtypes.ExternalToken{Amount: sdk.NewInt(int64(10 + i))}, Fee: mhubtypes.ExternalToken{Amount: sdk.NewInt(int64(i))}})
 					am, fe, de = append(am, big.NewInt(int64(10+i))), append(fe, big.NewInt(int64(i))), append(de, d)
 				}
-				b := &mhubtypes.BatchTx{BatchNonce: 3, Timeout: 1000, Transactions: txs, ExternalTokenId: h0.Token.Hex()}
+				b := &mhubtypes.BatchTx{BatchNonce: bn, Timeout: bto, Transactions: txs, ExternalTokenId: h0.Token.Hex()}
 				digest := ckpt(out, "BatchTx.GetCheckpoint", func() []byte { return b.GetCheckpoint(gid) })
 				call := func(h *evmhost.Host, dig []byte, nonce uint64) error {
 					v, r, s := signAll(cur, dig, nil)
-					_, err := h.Call("submitBatch", addrs, pws, big.NewInt(0), v, r, s, am, de, fe, new(big.Int).SetUint64(nonce), h.Token, big.NewInt(1000))
+					_, err := h.Call("submitBatch", addrs, pws, big.NewInt(0), v, r, s, am, de, fe, new(big.Int).SetUint64(nonce), h.Token, new(big.Int).SetUint64(bto))
 					return err
 				}
 				out.evals += 3
 				out.evm["submitBatch"]++
 				hc := h0.Copy()
-				if err := call(hc, digest, 3); err != nil {
-					out.bad("contract_rejects_hub_digest", "BatchTx.GetCheckpoint vs Hub2.submitBatch", "gid %q set %d size %d: %v", gid, si, sz, err)
+				if err := call(hc, digest, bn); err != nil {
+					out.bad("contract_rejects_hub_digest", "BatchTx.GetCheckpoint vs Hub2.submitBatch", "gid %q set %d size %d nonce %d: %v", gid, si, sz, bn, err)
 				} else {
 					for i := 0; i < sz; i++ {
 						if hc.TokenBalance(de[i]).Cmp(am[i]) != 0 {
@@ -421,11 +432,11 @@ func c07EVM(out *c07Out, keys []*ecdsa.PrivateKey, gids [][]byte, tier string) {
 						}
 					}
 				}
-				if err := call(h0.Copy(), flip(digest), 3); err == nil {
+				if err := call(h0.Copy(), flip(digest), bn); err == nil {
 					out.bad("contract_accepts_other_digest", "Hub2.submitBatch", "gid %q set %d size %d", gid, si, sz)
 				}
-				if err := call(h0.Copy(), digest, 4); err == nil {
-					out.bad("contract_accepts_other_data", "Hub2.submitBatch", "gid %q set %d size %d: nonce 4 with signatures over nonce 3", gid, si, sz)
+				if err := call(h0.Copy(), digest, bn+1); err == nil {
+					out.bad("contract_accepts_other_data", "Hub2.submitBatch", "gid %q set %d size %d: the next nonce with signatures over this one", gid, si, sz)
 				}
 			}
 			// --- logic calls with payloads around the 32-byte boundary
